@@ -113,6 +113,16 @@ let handle = function
       | UFinished _ -> incr fi
       | _ -> incr ot) us;
     Printf.sprintf "DA=%d A=%d inorder=%d F=%d other=%d %s" !da !ad (if !inorder then 1 else 0) !fi !ot (show_status st)
+  | ["dc"; rel; q; ser; udp; pr; zs] ->
+    (* relevant qtype query-serial|n udp provider zone-serial|n *)
+    let opt w = if w = "n" then None else Some (num w) in
+    let p = match String.split_on_char ':' pr with
+      | ["ok"; n; c] -> PData (num n, c = "1")
+      | ["parse"] -> PParse | ["unknown"] -> PUnknown | ["unavail"] -> PUnavailable | ["refused"] -> PRefused
+      | _ -> failwith "prov" in
+    (match c10_decide { rq_relevant = (rel = "1"); rq_qtype = num q; rq_serial = opt ser; rq_udp = (udp = "1") } p (opt zs) with
+     | DContinue -> "continue" | DErr rc -> "err" ^ string_of_int (int_of_n rc) | DNotimp -> "notimp"
+     | DAxfr c -> if c then "axfr1" else "axfr0" | DSingleSoa -> "single" | DIxfr -> "ixfr" | DPanic -> "panic")
   | ["ck"; first; h] -> if c10_check (first = "1") (parse_hdr h) then "reject" else "pass"
   | _ -> failwith "bad case line"
 let () = main handle
